@@ -11,7 +11,8 @@
 //   C02.area               sum of exact doubled shoelace areas of the solution paths == 2*s*s*#selected cells
 //
 // Two workloads, same judge:  --mode exh  enumerates all ordered pairs of the 100 rectangles of the 4x4 grid
-// (case index -> tuple, see decode_exh), default mode draws gen::rectilinear_scene scenes.
+// (case index -> tuple, see exh_case), default mode draws gen::rectilinear_scene scenes (see rnd_case).
+// A non-terminating or crashing Execute is reported by the orchestrator as C02.crash (CPU-time watchdog below).
 #include "geom.h"
 #include "gen.h"
 #include "clipper2/clipper.h"
